@@ -89,6 +89,10 @@ def apply_op(obj, op, case_index=0):
     if kind == "dict":
         return type(obj).from_dict(obj.to_dict(flat=op["flat"]))
     if kind == "to_namespace":
+        if op.get("dt"):
+            name = "float32" if op["dt"] == 32 else "float64"
+            form = case_index % 3       # string, NumPy dtype object, string again
+            return obj.to_namespace(smcdrv.get_xp(op["ns"]), dtype=(np.dtype(name) if (form == 1 and op["ns"] != "torch") else name))
         return obj.to_namespace(smcdrv.get_xp(op["ns"]))
     if kind == "to_numpy":
         return obj.to_numpy()
